@@ -1045,7 +1045,19 @@ func (a *Act) loopHead(b *ssa.BasicBlock, ins []edgeIn, backs []*ssa.BasicBlock,
 		if _, isParam := v.(*ssa.Parameter); !isParam {
 			// a lexer created in this function (uio.NewBigEndianBuffer): its two objects are fresh and stay the same
 			c.bound["l"] = c.bound[mcLex.Params[0]]
-			x, _ := parser.ParseExpr("fresh(l) && fresh(l.Buffer) && allocated(l) && allocated(l.Buffer) && exact(l) && exact(l.Buffer)")
+			x, _ := parser.ParseExpr("fresh(l) && fresh(l.Buffer) && allocated(l) && allocated(l.Buffer) && exact(l) && exact(l.Buffer) && (ref(l.Buffer.data) == lexref0 || fresh(l.Buffer.data))")
+			// lexref0: the data array the lexer had when it was created (its own parameter, or nil); it may only be replaced by fresh arrays
+			r0 := "0"
+			if call, ok := v.(*ssa.Call); ok && len(call.Call.Args) == 1 {
+				if t, bound := a.env[call.Call.Args[0]]; bound {
+					r0 = fmt.Sprintf("(sref %s)", t)
+				} else if isNilConst(call.Call.Args[0]) {
+					r0 = "0"
+				} else {
+					r0 = fmt.Sprintf("(sref %s)", a.val(call.Call.Args[0]))
+				}
+			}
+			c.bound["lexref0"] = tv{term: r0, typ: tInt}
 			inv = fmt.Sprintf("(and %s %s)", inv, c.evalBool(x))
 		}
 		return inv
